@@ -289,28 +289,55 @@ def run_for_property(pid: str, program: Program, seed: int = 0, say: Callable[[s
             'selftest_details': details}
 
 
+def _main_one(i: int):
+    v, pid = _PAR['jobs'][i]
+    try:
+        status, msg, _ = run_variant(v, _PAR['sources'], pid, *_PAR['base'][pid])
+    except Exception as ex:
+        status, msg = 'FAILED', f'self-test machinery raised {type(ex).__name__}: {ex}'
+    return i, status, msg
+
+
 def main(argv: list[str]) -> int:
-    """Developer entry: run all variants (optionally filtered by substring)."""
+    """Developer entry: run all variants (optionally filtered by substring), spread over the cores."""
+    import multiprocessing
     from . import runner
     load_variants()
     repo = os.environ.get('LT_STATIC_REPO', '/repo')
     program = Program.from_dir(repo)
     sources = {m.path: m.source for m in program.modules.values()}
     flt = argv[1:]
-    bad = 0
-    base_cache: dict[str, tuple[set, set]] = {}
+    jobs = []
+    base: dict[str, tuple[set, set]] = {}
     for v in VARIANTS:
         if flt and not any(f in v.name or f in v.props for f in flt):
             continue
         for pid in v.props:
             if not runner.rules_for(pid, 'quick'):
                 continue
-            if pid not in base_cache:
+            if pid not in base:
                 bo, _c, _s = runner.run_rules(Program.from_sources(sources), pid, 'quick')
-                base_cache[pid] = _verdicts(bo)
-            status, msg, _ = run_variant(v, sources, pid, *base_cache[pid])
-            if status != 'ok':
-                bad += 1
-            print(f'{status:8s} {pid} {v.kind:6s} {v.name}: {msg}')
+                base[pid] = _verdicts(bo)
+            jobs.append((v, pid))
+    out: list = [None] * len(jobs)
+    nproc = min(len(jobs), int(os.environ.get('LT_STATIC_JOBS', '0')) or (os.cpu_count() or 1))
+    _PAR.update(jobs=jobs, sources=sources, base=base)
+    try:
+        if nproc > 1 and len(jobs) > 3:
+            with multiprocessing.get_context('fork').Pool(nproc) as pool:
+                for i, status, msg in pool.imap_unordered(_main_one, range(len(jobs)), chunksize=1):
+                    out[i] = (status, msg)
+    except (OSError, ValueError):
+        pass
+    for i in range(len(jobs)):
+        if out[i] is None:
+            _i, status, msg = _main_one(i)
+            out[i] = (status, msg)
+    _PAR.clear()
+    bad = 0
+    for (v, pid), (status, msg) in zip(jobs, out):
+        if status != 'ok':
+            bad += 1
+        print(f'{status:8s} {pid} {v.kind:6s} {v.name}: {msg}')
     print('not ok:', bad)
     return 1 if bad else 0
